@@ -319,7 +319,7 @@ func moduleObligations(ld *Loaded, specs *SpecDB, prop, repo string) []*ObResult
 						} else if strings.HasPrefix(y, ".") {
 							y = a + y
 						}
-						*out = append(*out, y)
+						*out = append(*out, normTemplateExpr(y, nil))
 					}
 				}
 			}
@@ -327,9 +327,8 @@ func moduleObligations(ld *Loaded, specs *SpecDB, prop, repo string) []*ObResult
 			subst(i2, &ifs)
 			actions = append(actions, a2...)
 		}
-		allowedRange := map[string]bool{".Imports": true, ".Mocks": true, ".Methods": true, ".Params": true, ".Returns": true, ".TypeParams": true, "$mock.TypeParams": true}
-		allowedIf := map[string]bool{"not $.SkipEnsure": true, "not $.StubImpl": true, "$.StubImpl": true, "$.WithResets": true, ".TypeParams": true, "$mock.TypeParams": true,
-			".Returns": true, "$index": true, "$param.Constraint": true}
+		allowedRange := map[string]bool{".Imports": true, ".Mocks": true, ".Methods": true, ".Params": true, ".Returns": true, ".TypeParams": true}
+		allowedIf := map[string]bool{"$.SkipEnsure": true, "$.StubImpl": true, "$.WithResets": true, ".TypeParams": true, ".Returns": true, "$index": true, ".Constraint": true}
 		var badR, badI []string
 		for _, r := range ranges {
 			k := r
@@ -421,26 +420,58 @@ func templateText(ld *Loaded) (string, bool) {
 }
 
 func walkTemplate(n parse.Node, ranges, ifs, actions *[]string) {
+	walkTemplateCtx(n, ranges, ifs, actions, map[string]bool{})
+}
+
+// normTemplateExpr: the data a range or a condition depends on, independent of how the template spells it:
+// declarations and a leading `not` are dropped, `$v.Field` of a loop variable is `.Field`, the index variable
+// of an enclosing range is `$index`.
+func normTemplateExpr(t string, idx map[string]bool) string {
+	if k := strings.Index(t, ":= "); k >= 0 {
+		t = t[k+3:]
+	}
+	t = strings.TrimSpace(t)
+	for strings.HasPrefix(t, "not ") {
+		t = strings.TrimSpace(strings.TrimPrefix(t, "not "))
+	}
+	if strings.HasPrefix(t, "$") && !strings.HasPrefix(t, "$.") {
+		if k := strings.Index(t, "."); k > 0 {
+			t = t[k:]
+		} else if idx[t] {
+			t = "$index"
+		}
+	}
+	return t
+}
+
+func walkTemplateCtx(n parse.Node, ranges, ifs, actions *[]string, idx map[string]bool) {
 	switch x := n.(type) {
 	case *parse.ListNode:
 		if x == nil {
 			return
 		}
 		for _, c := range x.Nodes {
-			walkTemplate(c, ranges, ifs, actions)
+			walkTemplateCtx(c, ranges, ifs, actions, idx)
 		}
 	case *parse.RangeNode:
-		*ranges = append(*ranges, x.Pipe.String())
-		walkTemplate(x.List, ranges, ifs, actions)
-		walkTemplate(x.ElseList, ranges, ifs, actions)
+		*ranges = append(*ranges, normTemplateExpr(x.Pipe.String(), idx))
+		inner := map[string]bool{}
+		for k, v := range idx {
+			inner[k] = v
+		}
+		if len(x.Pipe.Decl) == 2 {
+			inner[x.Pipe.Decl[0].String()] = true
+		}
+		walkTemplateCtx(x.List, ranges, ifs, actions, inner)
+		walkTemplateCtx(x.ElseList, ranges, ifs, actions, idx)
 	case *parse.IfNode:
-		*ifs = append(*ifs, x.Pipe.String())
-		walkTemplate(x.List, ranges, ifs, actions)
-		walkTemplate(x.ElseList, ranges, ifs, actions)
+		*ifs = append(*ifs, normTemplateExpr(x.Pipe.String(), idx))
+		walkTemplateCtx(x.List, ranges, ifs, actions, idx)
+		walkTemplateCtx(x.ElseList, ranges, ifs, actions, idx)
 	case *parse.WithNode:
-		*ifs = append(*ifs, "with "+x.Pipe.String())
-		walkTemplate(x.List, ranges, ifs, actions)
-		walkTemplate(x.ElseList, ranges, ifs, actions)
+		*ifs = append(*ifs, normTemplateExpr(x.Pipe.String(), idx))
+		walkTemplateCtx(x.List, ranges, ifs, actions, idx)
+		walkTemplateCtx(x.ElseList, ranges, ifs, actions, idx)
 	case *parse.ActionNode:
 		*actions = append(*actions, x.Pipe.String())
 	}
